@@ -17,24 +17,24 @@ var commonAssume = []string{
 func defFor(check string) *checkDef {
 	switch check {
 	case "selftest":
-		return &checkDef{property: "selftest", selftest: true, budget: map[string]tierCfg{"quick": {120, 300}, "thorough": {400, 1200}}}
+		return &checkDef{property: "selftest", selftest: true, budget: map[string]tierCfg{"quick": {220, 300}, "thorough": {1100, 1200}}}
 	case "C01", "C01dup":
 		return &checkDef{property: "C01", level: "exploration",
 			variants: []string{"C01", "C01", "C01", "C01", "C01", "C01", "C01", "C01dup"},
 			budget:   map[string]tierCfg{"quick": {3000, 60}, "thorough": {150000, 1500}},
-			rule: "one simulated run per seed: swarm configuration, generated history of batches (insert/update/delete, empty and delete-only batches, ids re-used) from one client, every background step scheduled from the tape; after every window with a changed root a fresh Reader is read completely and compared document by document with the abstract index. distinct = distinct release sequences (hash of actor:gate per window); non-trivial = at least one background step (persister/merger/introducer release) was interleaved between two client operations. Every eighth run is the dedicated probe that issues one batch naming the same id in two Update operations (never generated elsewhere): the listed known finding",
-			assume: commonAssume,
-			probes: []string{"introducer-recompute-obsoletes", "file-merge", "in-memory-merge", "merge-3plus-inputs", "nap-timer-fired", "dup-id-batches"}}
+			rule:     "one simulated run per seed: swarm configuration, generated history of batches (insert/update/delete, empty and delete-only batches, ids re-used) from one client, every background step scheduled from the tape; after every window with a changed root a fresh Reader is read completely and compared document by document with the abstract index. distinct = distinct release sequences (hash of actor:gate per window); non-trivial = at least one background step (persister/merger/introducer release) was interleaved between two client operations. Every eighth run is the dedicated probe that issues one batch naming the same id in two Update operations (never generated elsewhere): the listed known finding",
+			assume:   commonAssume,
+			probes:   []string{"introducer-recompute-obsoletes", "file-merge", "in-memory-merge", "merge-3plus-inputs", "nap-timer-fired", "dup-id-batches"}}
 	case "C02":
 		return &checkDef{property: "C02", level: "fault_enumeration", timeout: 600 * time.Second,
 			budget: map[string]tierCfg{"quick": {400, 80}, "thorough": {20000, 1800}},
-			rule: "runs are sampled by seed (safe mode with 1-3 clients, unsafe mode with persisted callbacks; persister/merger/clean-up interleavings from the tape); within each run EVERY crash instant is enumerated: the directory image after each mutating directory operation, torn variants of the persist in flight (prefix lengths from a boundary set, zero-filled, stale tail) and subsets of each unordered remove group; each distinct image is recovered by the real open path in a child process and must contain every batch acknowledged in an earlier window and equal an abstract state the index went through. evaluations = simulated runs; crash_images_probed = images recovered. distinct = distinct release sequences; non-trivial = a background step interleaved between client operations",
+			rule:   "runs are sampled by seed (safe mode with 1-3 clients, unsafe mode with persisted callbacks; persister/merger/clean-up interleavings from the tape); within each run EVERY crash instant is enumerated: the directory image after each mutating directory operation, torn variants of the persist in flight (prefix lengths from a boundary set, zero-filled, stale tail) and subsets of each unordered remove group; each distinct image is recovered by the real open path in a child process and must contain every batch acknowledged in an earlier window and equal an abstract state the index went through. evaluations = simulated runs; crash_images_probed = images recovered. distinct = distinct release sequences; non-trivial = a background step interleaved between client operations",
 			assume: commonAssume,
 			probes: []string{"file-merge", "in-memory-merge"}}
 	case "C03":
 		return &checkDef{property: "C03", level: "fault_enumeration", timeout: 900 * time.Second,
 			budget: map[string]tierCfg{"quick": {250, 90}, "thorough": {10000, 1800}},
-			rule: "as C02 with the whole torn-variant set, plus crash / recover / continue / crash: a seeded subset of the images of each run (biased to torn snapshot files and to instants just after snapshot persists and removals) is continued by a further simulated run with a fresh writer and more workload, whose own trace is enumerated again (depth 2, thorough 3). Oracle per image: the opening process neither dies nor panics, OpenReader/OpenWriter succeed whenever a snapshot had been completed, recovered content = exactly one abstract state (prefix of the applied batches), the recovered writer accepts a batch, reads it back, closes, and the batch survives a reopen",
+			rule:   "as C02 with the whole torn-variant set, plus crash / recover / continue / crash: a seeded subset of the images of each run (biased to torn snapshot files and to instants just after snapshot persists and removals) is continued by a further simulated run with a fresh writer and more workload, whose own trace is enumerated again (depth 2, thorough 3). Oracle per image: the opening process neither dies nor panics, OpenReader/OpenWriter succeed whenever a snapshot had been completed, recovered content = exactly one abstract state (prefix of the applied batches), the recovered writer accepts a batch, reads it back, closes, and the batch survives a reopen",
 			assume: commonAssume,
 			probes: []string{"same-epoch-rewrite-after-recovery", "file-merge", "in-memory-merge"}}
 	case "C15", "C15close", "C15knownV2", "C15knownStats":
@@ -42,48 +42,48 @@ func defFor(check string) *checkDef {
 			env:      []string{"GORACE=halt_on_error=1 exitcode=66"},
 			variants: []string{"C15", "C15", "C15close", "C15", "C15knownV2", "C15", "C15close", "C15knownStats"},
 			budget:   map[string]tierCfg{"quick": {700, 80}, "thorough": {40000, 1800}},
-			rule: "three kinds of simulated run under a -race build of the simulator: (a) concurrent windows: every window releases a seeded SET of 2-6 parked actors at once (clients batching, several clients reading one shared held Reader and several clients taking a fresh Writer.Reader() in the same window and searching it at once - first use of a snapshot's caches - through the optimised conjunction/disjunction paths and generated queries of every type, stored-field loads, MemoryUsed(), reader acquisition, persister, merger, closer), so code regions released together have no happens-before edge and any conflicting access pair is reported by the race detector whatever the real timing; the harness is quiet there (no shared mutex between actors); (b) Close at an arbitrary scheduled moment once callers have returned, one release per window (replayable): Close must return (deterministic hang verdict), the three loops must exit, the directory must reopen with every acknowledged batch in a state the index went through; (c) a dedicated unshielded ice-v2 run that exercises the listed known finding; (d) a run of kind (a) whose clients also call Writer.Stats() in the concurrent windows. distinct = distinct release sequences; non-trivial = background step interleaved between client operations",
-			assume: append([]string{"the Go race detector reports only real races; which regions overlap is decided by the tape, the detector's verdict does not depend on real timing", "for ice v2 segments stored-field access is serialised by the harness wrapper (shield) in (a) so that the listed known race cannot mask others"}, commonAssume...),
-			probes: []string{"concurrent-windows", "close-while-background-work-in-progress", "reopened-after-early-close"}}
+			rule:     "three kinds of simulated run under a -race build of the simulator: (a) concurrent windows: every window releases a seeded SET of 2-6 parked actors at once (clients batching, several clients reading one shared held Reader and several clients taking a fresh Writer.Reader() in the same window and searching it at once - first use of a snapshot's caches - through the optimised conjunction/disjunction paths and generated queries of every type, stored-field loads, MemoryUsed(), reader acquisition, persister, merger, closer), so code regions released together have no happens-before edge and any conflicting access pair is reported by the race detector whatever the real timing; the harness is quiet there (no shared mutex between actors); (b) Close at an arbitrary scheduled moment once callers have returned, one release per window (replayable): Close must return (deterministic hang verdict), the three loops must exit, the directory must reopen with every acknowledged batch in a state the index went through; (c) a dedicated unshielded ice-v2 run that exercises the listed known finding; (d) a run of kind (a) whose clients also call Writer.Stats() in the concurrent windows. distinct = distinct release sequences; non-trivial = background step interleaved between client operations",
+			assume:   append([]string{"the Go race detector reports only real races; which regions overlap is decided by the tape, the detector's verdict does not depend on real timing", "for ice v2 segments stored-field access is serialised by the harness wrapper (shield) in (a) so that the listed known race cannot mask others"}, commonAssume...),
+			probes:   []string{"concurrent-windows", "close-while-background-work-in-progress", "reopened-after-early-close"}}
 	case "C08":
 		return &checkDef{property: "C08", level: "exploration", timeout: 300 * time.Second,
 			variants: []string{"C08", "C08merge"},
 			budget:   map[string]tierCfg{"quick": {700, 75}, "thorough": {40000, 1500}},
-			rule: "one simulated run per seed (0-18 operations per client, so the empty corpus occurs; file-system or in-memory directory, ice v1/v2, safe/unsafe, every second run merge-heavy) ends in build A = whatever layout the schedule produced (segmentation, pending deletions, merged or not); A is also read through Backup + OpenReader and, after Close, reopened from disk. The abstract index's live documents are then written as builds B: one in-memory batch (the reference), a seeded permutation, one document per batch without merges, one per batch with the default merge plan, the other segment format, all three query optimisations disabled, OfflineWriter with a seeded batch size, and partitioned over 2-4 indexes searched with MultiSearch. For 10-19 seeded queries per run drawn from all public query types (term, match or/and, phrase and multi-phrase with slop, prefix, wildcard, regexp, fuzzy, term/numeric/date ranges with both inclusivities, geo box and distance, match-all/none, booleans nested to depth 2 with must/should/must-not and min-should; plain terms of uid, _id, tag, _all and body aimed at existing documents, and flat conjunctions / disjunctions of 2-4 of them, the shapes the bitmap rewrites take over) every build must give the same match set (by uid), the same stored fields, the same order under the total sort -num,tag,-day,uid and the same aggregations (count, sum, min, max, avg, terms with nested sum); every query is repeated with scoring turned off (SetScore none: unadorned conjunction/disjunction rewrites) and must match the same set as the scored reference; scores are compared exactly between builds without merged segments and without pending deletions; for the merged build a score difference is the listed known finding. distinct = distinct release sequences of run A; non-trivial = background step interleaved between client operations",
-			assume: commonAssume,
-			probes: []string{"diff-reference-builds", "diff-comparisons", "diff-score-comparisons", "diff-score-none-comparisons", "diff-flat-term-conjunction-with-matches", "diff-builds-run-layout", "diff-builds-backup-restored", "diff-builds-reopened-from-disk", "diff-recipe-rounds"}}
+			rule:     "one simulated run per seed (0-18 operations per client, so the empty corpus occurs; file-system or in-memory directory, ice v1/v2, safe/unsafe, every second run merge-heavy) ends in build A = whatever layout the schedule produced (segmentation, pending deletions, merged or not); A is also read through Backup + OpenReader and, after Close, reopened from disk. The abstract index's live documents are then written as builds B: one in-memory batch (the reference), a seeded permutation, one document per batch without merges, one per batch with the default merge plan, the other segment format, all three query optimisations disabled, OfflineWriter with a seeded batch size, and partitioned over 2-4 indexes searched with MultiSearch. For 10-19 seeded queries per run drawn from all public query types (term, match or/and, phrase and multi-phrase with slop, prefix, wildcard, regexp, fuzzy, term/numeric/date ranges with both inclusivities, geo box and distance, match-all/none, booleans nested to depth 2 with must/should/must-not and min-should; plain terms of uid, _id, tag, _all and body aimed at existing documents, and flat conjunctions / disjunctions of 2-4 of them, the shapes the bitmap rewrites take over) every build must give the same match set (by uid), the same stored fields, the same order under the total sort -num,tag,-day,uid and the same aggregations (count, sum, min, max, avg, terms with nested sum); every query is repeated with scoring turned off (SetScore none: unadorned conjunction/disjunction rewrites) and must match the same set as the scored reference; scores are compared exactly between builds without merged segments and without pending deletions; for the merged build a score difference is the listed known finding. distinct = distinct release sequences of run A; non-trivial = background step interleaved between client operations",
+			assume:   commonAssume,
+			probes:   []string{"diff-reference-builds", "diff-comparisons", "diff-score-comparisons", "diff-score-none-comparisons", "diff-flat-term-conjunction-with-matches", "diff-builds-run-layout", "diff-builds-backup-restored", "diff-builds-reopened-from-disk", "diff-recipe-rounds"}}
 	case "C08merge":
 		return defFor("C08")
 	case "C19", "C19sizes":
 		return &checkDef{property: "C19", level: "exploration", timeout: 180 * time.Second,
 			variants: []string{"C19", "C19sizes", "C19", "C19sizes"},
 			budget:   map[string]tierCfg{"quick": {1200, 75}, "thorough": {60000, 1500}},
-			rule: "two kinds of run, alternating. (a) in situ: a merge-heavy simulated run of 10-120 (thorough 400) operations per client on the file-system directory; whenever the real merger is parked inside the planner (CalcBudget seam) the exported planner is run twice (and once on the reversed input) on the persisted segments of the snapshot it plans on: tasks only contain input segments, no segment in two tasks, task live size below the maximum segment size, no member at or above half of it, same result each time; the merges the merger then executes are compared with those tasks; at quiescence (all calls returned, background idle, reached within the window budget) it is measured whether planner work is still pending (the merger is only woken by a completed persist, so this is legal and only counted) and, when none is, that the mergeable segments are within CalcBudget. (b) sizes only: a seeded discrete-event history round the real planner over size stubs (arrivals of small, empty and over-size segments, deletions, execution of returned tasks; option ranges round the defaults, tier growth 1.25-10 including fractional factors; up to thousands of segments): the same invariants at every planning step, then a fixpoint within 200 plan/execute rounds once arrivals stop and the budget bound there. (b) has no scheduler or fault in it; it is included because the property's quantifier names 'simulated histories ... on sizes only'. distinct = distinct release sequences / histories; non-trivial = background step interleaved (a) or at least one task executed (b)",
-			assume: commonAssume,
-			probes: []string{"plans-checked", "plans-with-tasks", "plan-executions-compared", "quiescent-plan-checks", "sizes-only-histories", "sizes-only-300plus-segments", "plan-task-near-size-limit", "segment-too-big-to-merge"}}
+			rule:     "two kinds of run, alternating. (a) in situ: a merge-heavy simulated run of 10-120 (thorough 400) operations per client on the file-system directory; whenever the real merger is parked inside the planner (CalcBudget seam) the exported planner is run twice (and once on the reversed input) on the persisted segments of the snapshot it plans on: tasks only contain input segments, no segment in two tasks, task live size below the maximum segment size, no member at or above half of it, same result each time; the merges the merger then executes are compared with those tasks; at quiescence (all calls returned, background idle, reached within the window budget) it is measured whether planner work is still pending (the merger is only woken by a completed persist, so this is legal and only counted) and, when none is, that the mergeable segments are within CalcBudget. (b) sizes only: a seeded discrete-event history round the real planner over size stubs (arrivals of small, empty and over-size segments, deletions, execution of returned tasks; option ranges round the defaults, tier growth 1.25-10 including fractional factors; up to thousands of segments): the same invariants at every planning step, then a fixpoint within 200 plan/execute rounds once arrivals stop and the budget bound there. (b) has no scheduler or fault in it; it is included because the property's quantifier names 'simulated histories ... on sizes only'. distinct = distinct release sequences / histories; non-trivial = background step interleaved (a) or at least one task executed (b)",
+			assume:   commonAssume,
+			probes:   []string{"plans-checked", "plans-with-tasks", "plan-executions-compared", "quiescent-plan-checks", "sizes-only-histories", "sizes-only-300plus-segments", "plan-task-near-size-limit", "segment-too-big-to-merge"}}
 	case "C11":
 		return &checkDef{property: "C11", level: "exploration",
 			budget: map[string]tierCfg{"quick": {2500, 75}, "thorough": {100000, 1500}},
-			rule: "one simulated run per seed on the file-system directory with retention count N in {1,2,3}, 1-3 client actors that also hold Readers (from the writer and from the live directory via OpenReader) open and closed at scheduled instants and attempt a second OpenWriter; after every window containing a directory mutation the real directory is scanned and every snapshot file parsed (exported decoder + CRC): (i) at least min(N, commits) snapshots are loadable with all their segment files, (ii) no segment file that the writer's root or an open reader refers to is missing, and no successful Remove named one, (iii) held readers re-read equal to their baseline, (iv) every closer returned by Load is closed exactly once and no descriptor under the directory is open after the last Close (os seam), (v) OpenWriter right after Close succeeds and shows the abstract index, (vi) a second OpenWriter on the locked directory is refused while the first keeps satisfying the model. distinct = distinct release sequences; non-trivial = background step interleaved between client operations",
+			rule:   "one simulated run per seed on the file-system directory with retention count N in {1,2,3}, 1-3 client actors that also hold Readers (from the writer and from the live directory via OpenReader) open and closed at scheduled instants and attempt a second OpenWriter; after every window containing a directory mutation the real directory is scanned and every snapshot file parsed (exported decoder + CRC): (i) at least min(N, commits) snapshots are loadable with all their segment files, (ii) no segment file that the writer's root or an open reader refers to is missing, and no successful Remove named one, (iii) held readers re-read equal to their baseline, (iv) every closer returned by Load is closed exactly once and no descriptor under the directory is open after the last Close (os seam), (v) OpenWriter right after Close succeeds and shows the abstract index, (vi) a second OpenWriter on the locked directory is refused while the first keeps satisfying the model. distinct = distinct release sequences; non-trivial = background step interleaved between client operations",
 			assume: commonAssume,
 			probes: []string{"dir-invariant-evaluations", "segment-removals-checked", "remove-refused-while-reader-open", "second-writer-refused", "live-openreader", "reopened-writer-after-close", "descriptors-all-closed"}}
 	case "C12":
 		return &checkDef{property: "C12", level: "fault_enumeration", timeout: 900 * time.Second,
 			variants: []string{"C12big", "C12", "C12", "C12", "C12", "C12", "C12", "C12"},
 			budget:   map[string]tierCfg{"quick": {40, 50}, "thorough": {3000, 1800}},
-			rule: "storage-corruption fault injection on the snapshot files simulated runs actually produce (0..many segments, with and without deleted bitmaps; every fourth run is a no-merge run of ~200 batches so that the file crosses the 4096-byte read buffer). Round trip: every produced snapshot is decoded with the exported decoder and compared (ids, types, versions, deleted sets) with what was handed to the encoder. Rejection, per chosen file: every truncation length, every single-bit flip (quick tier on files > 300 bytes: header, trailer, the 4096 boundary and a seeded sample), appended tails (1 byte, 4 bytes, a copy of itself), zero-fill, seeded garbage, every uvarint length field replaced by 2^31/2^40/2^63/2^64-1; the damaged file is the newest snapshot of an image that also holds the older intact ones; the image is opened in a child process (RLIMIT_AS) through the mmap and the non-mmap loader: no death, no panic, allocation <= 64 x directory size + 16 MiB, content = the older snapshot's state. evaluations = simulated runs; crash_images_probed = damaged images opened. Ids up to 2^64-1 and coverage-guided fuzzing of the decoder are input generation, outside this technique",
-			assume: append([]string{"CRC-32 detects every single-bit flip and every burst <= 32 bits; a truncation is accepted with probability 2^-32 per length (would be reported)"}, commonAssume...),
-			probes: []string{"snapshot-over-4096-bytes", "snapshot-over-4096-bytes-with-many-deleted-bitmaps", "damaged-snapshot-with-deleted-bitmap"}}
+			rule:     "storage-corruption fault injection on the snapshot files simulated runs actually produce (0..many segments, with and without deleted bitmaps; every fourth run is a no-merge run of ~200 batches so that the file crosses the 4096-byte read buffer). Round trip: every produced snapshot is decoded with the exported decoder and compared (ids, types, versions, deleted sets) with what was handed to the encoder. Rejection, per chosen file: every truncation length, every single-bit flip (quick tier on files > 300 bytes: header, trailer, the 4096 boundary and a seeded sample), appended tails (1 byte, 4 bytes, a copy of itself), zero-fill, seeded garbage, every uvarint length field replaced by 2^31/2^40/2^63/2^64-1; the damaged file is the newest snapshot of an image that also holds the older intact ones; the image is opened in a child process (RLIMIT_AS) through the mmap and the non-mmap loader: no death, no panic, allocation <= 64 x directory size + 16 MiB, content = the older snapshot's state. evaluations = simulated runs; crash_images_probed = damaged images opened. Ids up to 2^64-1 and coverage-guided fuzzing of the decoder are input generation, outside this technique",
+			assume:   append([]string{"CRC-32 detects every single-bit flip and every burst <= 32 bits; a truncation is accepted with probability 2^-32 per length (would be reported)"}, commonAssume...),
+			probes:   []string{"snapshot-over-4096-bytes", "snapshot-over-4096-bytes-with-many-deleted-bitmaps", "damaged-snapshot-with-deleted-bitmap"}}
 	case "C14":
 		return &checkDef{property: "C14", level: "fault_enumeration", timeout: 1200 * time.Second,
 			budget: map[string]tierCfg{"quick": {48, 70}, "thorough": {4000, 1800}},
-			rule: "base runs are sampled by seed (1-2 clients, safe mode or unsafe with persisted callbacks, held readers); because a run is a pure function of its tape, the same tape is re-run with a fault placed on operation i of the recorded directory trace: every operation x every placement {directory error before any byte, item-writer failure after a partial write, os write ENOSPC after 3 bytes, fsync EIO after the full write; thorough also open/close/truncate errors and failure at byte 0 / at the end} (quick tier: a seeded subset of <= 160 placements per base run), plus sticky spans (2-7 consecutive operations fail) and seeded pairs. Oracle per faulted run: no panic, no hang (deterministic verdict), a Batch error only when a fault fired, AsyncError fired when a persister/merger step failed, monitor and held readers equal the abstract index of applied batches (a batch whose call returned the persist error is applied), the run finishes within 4x the fault-free window count + 3000 once faults stop, the reopened index equals the abstract index at quiescence, and for every 5th faulted run all crash images (during and after the fault) pass the C03 oracle. evaluations = base runs; fault_runs = faulted re-executions",
+			rule:   "base runs are sampled by seed (1-2 clients, safe mode or unsafe with persisted callbacks, held readers); because a run is a pure function of its tape, the same tape is re-run with a fault placed on operation i of the recorded directory trace: every operation x every placement {directory error before any byte, item-writer failure after a partial write, os write ENOSPC after 3 bytes, fsync EIO after the full write; thorough also open/close/truncate errors and failure at byte 0 / at the end} (quick tier: a seeded subset of <= 160 placements per base run), plus sticky spans (2-7 consecutive operations fail) and seeded pairs. Oracle per faulted run: no panic, no hang (deterministic verdict), a Batch error only when a fault fired, AsyncError fired when a persister/merger step failed, monitor and held readers equal the abstract index of applied batches (a batch whose call returned the persist error is applied), the run finishes within 4x the fault-free window count + 3000 once faults stop, the reopened index equals the abstract index at quiescence, and for every 5th faulted run all crash images (during and after the fault) pass the C03 oracle. evaluations = base runs; fault_runs = faulted re-executions",
 			assume: commonAssume,
 			probes: []string{"batch-returned-persist-error", "open-failed-under-fault"}}
 	case "C13":
 		return &checkDef{property: "C13", level: "fault_enumeration", timeout: 600 * time.Second, special: true,
 			budget: map[string]tierCfg{"quick": {1, 300}, "thorough": {1, 600}},
-			rule: "exhaustive enumeration, against the real FileSystemDirectory over the hooked os package, of: item kind {segment, snapshot} x item size {0,1,4095,4096,4097,3 buffers+5} x buffered/unbuffered item writer x pre-existing file {absent, shorter, equal, longer} x item-writer outcome {ok, error after k bytes, cancelled before, cancelled after k bytes} x os fault {none, open EACCES/EMFILE, truncate EIO, write ENOSPC/EIO after k bytes, fsync EIO, close EIO}, k over the boundary set {0,1,size/2,size-1,size,4095,4096,4097}. Oracle: on nil the file holds exactly the bytes written, the os event log shows a successful Sync on it after the last write/truncate and before return, no injected non-write fault was swallowed; on error or cancellation nothing is left under the item's name (an untouched pre-existing file is accepted only when the failure preceded any change). non-trivial = a fault, a failing/cancelled item writer or a pre-existing file is involved",
+			rule:   "exhaustive enumeration, against the real FileSystemDirectory over the hooked os package, of: item kind {segment, snapshot} x item size {0,1,4095,4096,4097,3 buffers+5} x buffered/unbuffered item writer x pre-existing file {absent, shorter, equal, longer} x item-writer outcome {ok, error after k bytes, cancelled before, cancelled after k bytes} x os fault {none, open EACCES/EMFILE, truncate EIO, write ENOSPC/EIO after k bytes, fsync EIO, close EIO}, k over the boundary set {0,1,size/2,size-1,size,4095,4096,4097}. Oracle: on nil the file holds exactly the bytes written, the os event log shows a successful Sync on it after the last write/truncate and before return, no injected non-write fault was swallowed; on error or cancellation nothing is left under the item's name (an untouched pre-existing file is accepted only when the failure preceded any change). non-trivial = a fault, a failing/cancelled item writer or a pre-existing file is involved",
 			assume: []string{"os.File.Sync is the flush to stable storage (observed at the os seam through a go build -overlay hook)", "single caller: Persist of one item is not raced with another Persist of the same name"},
 		}
 	case "C12big":
@@ -92,19 +92,19 @@ func defFor(check string) *checkDef {
 	case "C04":
 		return &checkDef{property: "C04", level: "exploration",
 			budget: map[string]tierCfg{"quick": {2500, 75}, "thorough": {100000, 1500}},
-			rule: "one simulated run per seed: 1-3 client actors hold up to three Readers of different ages open while batches, in-memory merges, file merges, persist swaps, clean-ups (unlinks) and writer Close are scheduled between their reads; the first full read of a reader (count, match-all with stored fields, lookup by id, sorted top-N over document values, aggregations, dictionary scan, phrase/boolean/conjunction/disjunction/range/prefix queries, scored nested booleans, and 6-11 queries generated per run from all public query types, with scores) is its baseline, checked against the abstract index at acquisition; right after acquisition, while the reader is still the writer's current root, the same reads are repeated twice in rotated order and must agree (answers must not depend on search history); every later read, again in another order, must be identical; in one run of four the writer is closed at an arbitrary moment (while merges and persists are in progress) instead of at quiescence, and in half of the runs the held readers stay open over Writer.Close and are read once more after it returned; a third of the runs disable the query optimisations. distinct = distinct release sequences; non-trivial = a background step was interleaved between two client operations",
+			rule:   "one simulated run per seed: 1-3 client actors hold up to three Readers of different ages open while batches, in-memory merges, file merges, persist swaps, clean-ups (unlinks) and writer Close are scheduled between their reads; the first full read of a reader (count, match-all with stored fields, lookup by id, sorted top-N over document values, aggregations, dictionary scan, phrase/boolean/conjunction/disjunction/range/prefix queries, scored nested booleans, and 6-11 queries generated per run from all public query types, with scores) is its baseline, checked against the abstract index at acquisition; right after acquisition, while the reader is still the writer's current root, the same reads are repeated twice in rotated order and must agree (answers must not depend on search history); every later read, again in another order, must be identical; in one run of four the writer is closed at an arbitrary moment (while merges and persists are in progress) instead of at quiescence, and in half of the runs the held readers stay open over Writer.Close and are read once more after it returned; a third of the runs disable the query optimisations. distinct = distinct release sequences; non-trivial = a background step was interleaved between two client operations",
 			assume: commonAssume,
 			probes: []string{"reader-held-across-unlink-of-other-files", "remove-refused-while-reader-open", "reader-held-across-merge", "reader-reread", "file-merge", "in-memory-merge", "held-reader-read-after-writer-close", "close-while-background-work-in-progress"}}
 	case "C05":
 		return &checkDef{property: "C05", level: "exploration",
 			budget: map[string]tierCfg{"quick": {4000, 75}, "thorough": {200000, 1500}},
-			rule: "one simulated run per seed: 2-8 client actors over 3-6 shared ids issue 2-5 operations each (Batch/Insert/Update/Delete, Reader()+full read); the window between a batch computing its obsoletes and its introduction is opened by the DocsMatchingTerms gate; invoke/return are stamped with scheduler windows; porcupine decides the history against the abstract index (Illegal = violation, Unknown counted, never reported) and, independently, every monitor observation must be an atomic application of in-flight batches. distinct = distinct release sequences; non-trivial = background step interleaved between client operations",
+			rule:   "one simulated run per seed: 2-8 client actors over 3-6 shared ids issue 2-5 operations each (Batch/Insert/Update/Delete, Reader()+full read); the window between a batch computing its obsoletes and its introduction is opened by the DocsMatchingTerms gate; invoke/return are stamped with scheduler windows; porcupine decides the history against the abstract index (Illegal = violation, Unknown counted, never reported) and, independently, every monitor observation must be an atomic application of in-flight batches. distinct = distinct release sequences; non-trivial = background step interleaved between client operations",
 			assume: commonAssume,
 			probes: []string{"introducer-recompute-obsoletes", "multi-batch-window"}}
 	case "C06":
 		return &checkDef{property: "C06", level: "exploration",
 			budget: map[string]tierCfg{"quick": {2500, 75}, "thorough": {100000, 1500}},
-			rule: "one simulated run per seed in a merge-heavy configuration (tiers 2-3, floor 1-4, tasks of 2-10 segments, in-memory merge threshold 2-4); while a merge is between its Merge seam and its introduction, or an in-memory segment between being written out and its persist swap, the generator aims deletes/updates (including delete-all) at the documents of those segments; after every window the monitor reader must equal the abstract index, at quiescence the reopened on-disk index too. distinct = distinct release sequences; non-trivial = background step interleaved between client operations",
+			rule:   "one simulated run per seed in a merge-heavy configuration (tiers 2-3, floor 1-4, tasks of 2-10 segments, in-memory merge threshold 2-4); while a merge is between its Merge seam and its introduction, or an in-memory segment between being written out and its persist swap, the generator aims deletes/updates (including delete-all) at the documents of those segments; after every window the monitor reader must equal the abstract index, at quiescence the reopened on-disk index too. distinct = distinct release sequences; non-trivial = background step interleaved between client operations",
 			assume: commonAssume,
 			probes: []string{"delete-into-merge-window", "persist-window-opened", "merge-skipped-all-deleted", "in-memory-merge", "file-merge", "merge-3plus-inputs"}}
 	}
@@ -114,6 +114,8 @@ func defFor(check string) *checkDef {
 // selftest: every seed is executed at GOMAXPROCS 1, 4 and 16, twice each, in
 // separate processes; the full event logs (including hashes of every
 // persisted file) must be identical. Any divergence is harness trouble.
+var selftestProfiles = []string{"selftest", "C01", "C11", "C06", "C05", "C04", "C19", "C02", "C14", "C03", "C08"}
+
 func selftest(bin string, baseSeed uint64, cfg tierCfg, nw int) int {
 	start := time.Now()
 	type key struct {
@@ -140,7 +142,11 @@ func selftest(bin string, baseSeed uint64, cfg tierCfg, nw int) int {
 					defer func() { w.stop() }()
 					for i := shard; i < per; i += 6 {
 						seed := seedFor(baseSeed, i)
-						r := w.do(&Job{ID: i, Check: "selftest", Tier: "quick", Seed: seed, Trace: true}, 120*time.Second)
+						// the profiles of the checks take turns (a divergence that
+						// only a reopened writer produced was invisible to a
+						// self-test that ran one small profile)
+						prof := selftestProfiles[i%len(selftestProfiles)]
+						r := w.do(&Job{ID: i, Check: prof, Tier: "quick", Seed: seed, Trace: true, HashOnly: true}, 120*time.Second)
 						if w.dead {
 							w = startWorkerEnv(bin, []string{"GOMAXPROCS=" + gmp})
 						}
@@ -178,7 +184,7 @@ func selftest(bin string, baseSeed uint64, cfg tierCfg, nw int) int {
 			}
 		}
 	}
-	fmt.Printf("selftest: %d seeds x %d executions (GOMAXPROCS 1/4/16, 2 repetitions, 36 processes): %d divergences, %.1fs\n",
+	fmt.Printf("selftest: %d seeds (profiles of 11 checks in turn) x %d executions (GOMAXPROCS 1/4/16, 2 repetitions, 36 processes): %d divergences, %.1fs\n",
 		len(hashes), total, div, time.Since(start).Seconds())
 	if len(bad) > 0 {
 		for _, b := range bad {
